@@ -39,7 +39,7 @@ func Run(c *engine.Ctx) {
 			c.Case(func() any { return pairDesc{A: A, B: B} }, func(t *engine.T) *engine.Violation { return pairCase(t, A, B) })
 		}
 	}
-	for _, fam := range []string{"collisions", "near-ids", "edge-types", "empty-targets", "wide"} {
+	for _, fam := range c09.Families {
 		F := c09.Lists(c.Thorough(), fam)
 		c.Group(fam)
 		c.Bound(fam, fmt.Sprintf("all %d x %d ordered pairs of the %s family", len(F), len(F), fam))
